@@ -41,9 +41,14 @@ impl Eq for Wide {}
 impl PartialOrd for Wide { fn partial_cmp(&self, o: &Self) -> Option<std::cmp::Ordering> { Some(self.cmp(o)) } }
 impl Ord for Wide { fn cmp(&self, o: &Self) -> std::cmp::Ordering { self.key.cmp(&o.key) } }
 
+/// An element with drop glue (heap allocation) ordered by its content.
+#[derive(Clone, Debug, PartialEq, Eq, PartialOrd, Ord)]
+pub struct Boxed(pub Box<i64>);
+
 pub trait SortElem: Ord + Clone { fn ident(&self) -> i64; fn pad(k: usize) -> Self; }
 impl SortElem for i64 { fn ident(&self) -> i64 { 0 } fn pad(k: usize) -> Self { i64::MIN + 7 + k as i64 } }
 impl SortElem for Wide { fn ident(&self) -> i64 { 0 } fn pad(k: usize) -> Self { Wide { key: i64::MIN + 7 + k as i64, fill: [k as u64; 10] } } }
+impl SortElem for Boxed { fn ident(&self) -> i64 { 0 } fn pad(k: usize) -> Self { Boxed(Box::new(i64::MIN + 7 + k as i64)) } }
 impl SortElem for Keyed { fn ident(&self) -> i64 { self.id } fn pad(k: usize) -> Self { Keyed { key: i64::MIN + 7 + k as i64, id: 900 + k as i64, poison: false } } }
 
 /// A lane with ONE element whose comparisons panic (as `partial_cmp().expect()` wrappers do on NaN): whatever the routine
@@ -133,6 +138,9 @@ pub fn run(case: &Value, params: &Params, out: &mut Vec<Value>) {
     if case.get("keyed").and_then(|x| x.as_bool()).unwrap_or(false) {
         let lane: Vec<Keyed> = a.iter().enumerate().map(|(p, &v)| Keyed { key: vmap_i64(v, k, mode), id: p as i64 + 1, poison: false }).collect();
         run_t(case, params, lane, out);
+    } else if case.get("boxed").and_then(|x| x.as_bool()).unwrap_or(false) {
+        let lane: Vec<Boxed> = a.iter().map(|&v| Boxed(Box::new(vmap_i64(v, k, mode)))).collect();
+        run_t(case, params, lane, out);
     } else if case.get("wide").and_then(|x| x.as_bool()).unwrap_or(false) {
         let lane: Vec<Wide> = a.iter().map(|&v| Wide { key: vmap_i64(v, k, mode), fill: [v as u64; 10] }).collect();
         run_t(case, params, lane, out);
@@ -166,7 +174,15 @@ fn call_one<T: SortElem, S: ndarray::DataMut<Elem = T>>(case: &Value, arr: &mut 
         }
         "bulk" => {
             let idx: Vec<usize> = jints(&case["idx"]).into_iter().map(to_usize).collect();
-            let idx_arr = Array1::from(idx.clone());
+            // the request list as an owned array, or as a reversed / stepped view of a larger buffer (same logical list)
+            let idx_owned = Array1::from(idx.clone());
+            let idx_rev_buf: Array1<usize> = idx.iter().rev().cloned().collect();
+            let idx_step_buf: Array1<usize> = idx.iter().flat_map(|&x| [x, usize::MAX / 3]).collect();
+            let idx_arr: ndarray::ArrayView1<usize> = match jstr(case, "idxlay", "owned") {
+                "rev" => idx_rev_buf.slice(ndarray::s![..;-1]),
+                "step" => idx_step_buf.slice(ndarray::s![..;2]),
+                _ => idx_owned.view(),
+            };
             verif_hooks::set_script(script.clone(), fb);
             let r = guarded(|| arr.get_many_from_sorted_mut(&idx_arr));
             let log = verif_hooks::take_log();
@@ -366,7 +382,8 @@ pub fn gen(seed: u64, count: usize, tier: &str, params: &Params) -> Vec<Value> {
                     let pos = rng.below(idx.len() as u64) as usize;
                     idx[pos] = oor_pos(&mut rng, n);
                 }
-                cases.push(json!({"ev": if kind == "bulkpair" { "bulkpair" } else { "bulk" }, "a": a, "idx": idx, "pv": script, "fb": fb, "vmap": vmap, "strides": strides, "keyed": keyed}));
+                cases.push(json!({"ev": if kind == "bulkpair" { "bulkpair" } else { "bulk" }, "a": a, "idx": idx, "pv": script, "fb": fb, "vmap": vmap, "strides": strides, "keyed": keyed,
+                                  "idxlay": *rng.pick(&["owned", "owned", "rev", "step"])}));
             }
         }
         if rep != "view" && cases.len() > n0 && cases[n0]["ev"] != "bulkpair" {
@@ -376,7 +393,7 @@ pub fn gen(seed: u64, count: usize, tier: &str, params: &Params) -> Vec<Value> {
             if rep == "notnone" { cases[n0]["vmap"] = json!("id"); cases[n0]["keyed"] = json!(false); }
         }
         // element types wider than a cache line
-        if rep == "view" && cases.len() > n0 && !keyed && rng.chance(1, 8) { cases[n0]["wide"] = json!(true);
+        if rep == "view" && cases.len() > n0 && !keyed && rng.chance(1, 8) { if rng.chance(1, 2) { cases[n0]["wide"] = json!(true); } else { cases[n0]["boxed"] = json!(true); }
         }
     }
     cases
